@@ -29,6 +29,17 @@ CLAIMED = {
          "Trusted: Lean kernel; UniqueKey idealisation; the CBOR re-encoding round trip is covered by C11's theorems.", "DESIGN.md §5 C08"),
  "C17": ("PARTIAL (clock and OpenSSL comparison are runtime). Theorems on the regenerated SafetyNet guards: window (accepted iff |ts - 1000*floor(t)| <= 10 s), window_real_time (the +-1 s truncation tolerance), wired (SafetyNet acceptance implies the window holds for the clock read in this call), clock_per_call. Tie: real code and model under an LD_PRELOAD controlled clock, dense around every certificate validity boundary and the four SafetyNet boundaries, with clock moves between repeated verifications.",
          "Trusted: Lean kernel; fake-clock shim; OpenSSL's time comparison.", "DESIGN.md §5 C17"),
+
+ "C09": ("Theorems: scheme_is_declared (whenever verification goes ahead the scheme is the one the key's declared algorithm denotes, from the complete regenerated dispatch matrix by decide), dispatch_complete, no_other_scheme (trace theorem: verify_signature either refuses without consulting the crypto library or issues exactly one verification query with the dispatched scheme), raw_u2f, to_keyspec_* (integers handed to the library are the big-endian values; leading zeros irrelevant), okp_only_eddsa. Tie: complete matrix key type x declared alg x alg used to sign through authentication and packed self-attestation, plus COSE decoding of every key.",
+         "Trusted: Lean kernel; extract.py spy-key tabulation; that a signature under scheme A fails under scheme B is cryptography (oracle). COSE CBOR decode round trip: see C11.", "DESIGN.md §5 C09"),
+ "C11": ("Theorems: total (for every byte string the parser returns a fully populated record or one of the two library exceptions; CBOR outside the modelled fragment is explicitly out of model), too_short, header (RP ID hash, flags, counter exactly; AT <=> attested data, ED <=> extensions), leftover_plain. Tie: canonical layouts over all flag bytes/id lengths/key types/nested extension maps must parse to exactly their fields, truncations and suffixes must be refused; the Lean CBOR codec is compared with cbor2 in the same run.",
+         "Trusted: Lean kernel; cbor2 outside the fragment; CBOR decode(encode v)=v and prefix-freeness proofs are in progress (Proofs/Cbor.lean) - until then exact/leftover/truncated for inputs with attested data or extensions rest on the tie.", "DESIGN.md §5 C11"),
+ "C12": ("Theorems: tables (the regenerated TPM_ST / TPM_ALG / TPM_ECC_CURVE maps equal the transcription of TPM 2.0 Part 2), attributes (every TPMA_OBJECT attribute is its bit, for every word), not_certify (an accepted certInfo has tag 0x8017), lenPrefixed_spec (a 2-byte-length-prefixed field laid out at an offset is returned exactly, for all sizes < 65536). Tie: structures built by an independent encoder over all identifiers and sizes must decode field for field.",
+         "Trusted: Lean kernel; extract.py; the closed-form parse(encode) theorem for the whole structure is composed from lenPrefixed_spec by the tie, not yet by a single Lean theorem.", "DESIGN.md §5 C12"),
+ "C13": ("Theorems: rejects_reg / rejects_auth (for every JSON value the parsers return a record or raise InvalidJSONStructure / Invalid*Response - nothing else), faithful_reg / faithful_auth (well-formed credentials over arbitrary bytes decode to exactly those bytes, using the base64 round-trip theorem), transports (recognised members in order), text_eq_dict_*, client_data. Tie: every member valid / invalid string / absent / arbitrary JSON, dict and text form, outcome equality.",
+         "Trusted: Lean kernel; json.loads oracle.", "DESIGN.md §5 C13"),
+ "C19": ("Theorems: hierarchy (every regenerated exception class has WebAuthnException in its MRO), vocabulary, parsers_* (credential-JSON, CBOR and authenticator-data parsers refuse only through the hierarchy), semantic_auth (a well-formed authentication response is accepted or rejected with a library exception), never_returns_unverified. Tie: every fault of the C01-C04 catalogues must raise a subclass of the base class.",
+         "Trusted: Lean kernel; semantic_reg is covered through C03's rule theorems and the tie rather than a separate error-side theorem.", "DESIGN.md §5 C19"),
 }
 PENDING_REASON = "check under construction in this round (model stage not yet committed); see DESIGN.md §9 staging"
 
